@@ -193,11 +193,11 @@ func TestSim(t *testing.T) {
 			out.Truncated = true
 			break
 		}
-		r := NewRng(seed, scName+"/"+prop, uint64(idx))
-		c := sc.Gen(r, GenConfig{Tier: tier, Prop: prop, Idx: uint64(idx), NumCPU: w.NumCPU})
 		if jf != nil {
 			fmt.Fprintf(jf, "START %d\n", idx)
 		}
+		r := NewRng(seed, scName+"/"+prop, uint64(idx))
+		c := sc.Gen(r, GenConfig{Tier: tier, Prop: prop, Idx: uint64(idx), NumCPU: w.NumCPU})
 		if dumpCase {
 			b, _ := json.Marshal(c)
 			os.WriteFile("case.json", b, 0o644)
@@ -238,6 +238,18 @@ func TestSim(t *testing.T) {
 			}
 		}
 		if v := res.first(prop); v != nil {
+			// persist the unminimised violation first: if a shrink candidate kills the
+			// process (a panic in a goroutine of the system under test) the driver still has it
+			{
+				cj, _ := json.Marshal(c)
+				out.Violation = &Report{Property: v.Property, Scenario: scName, Predicate: v.Predicate, Message: v.Message + " [not minimised: the process died while shrinking]", Signature: v.Signature,
+					Seed: seed, Idx: uint64(idx), Tier: tier, NumCPU: w.NumCPU, Case: cj, EventDigest: res.EventDigest(), Events: res.Events}
+				writeOut()
+				out.Violation = nil
+				if jf != nil {
+					fmt.Fprintf(jf, "SHRINK %d\n", idx)
+				}
+			}
 			start := c
 			if res.Pinned != nil {
 				w.Reset()
